@@ -143,37 +143,17 @@ def dispatch_exhaustive(ct: Container, rep, rule="dispatch-exhaustive"):
     mapping = {}  # member -> class name node
     param = f.params[0] if f.params else "block_type"
 
-    def walk_if(st):
-        if isinstance(st, ast.If):
-            t = st.test
-            m = None
-            if isinstance(t, ast.Compare) and len(t.ops) == 1 and isinstance(t.ops[0], (ast.Eq, ast.Is)):
+    # path summaries: which class is returned on the paths that have found `block_type == BlockType.<member>`
+    from ..facts import flat_facts, return_leaves
+    for guards, leaf, pe in return_leaves(f.node):
+        if leaf is None:
+            continue
+        for t, pol in flat_facts(guards):
+            if pol and isinstance(t, ast.Compare) and len(t.ops) == 1 and isinstance(t.ops[0], (ast.Eq, ast.Is)):
                 a, b = t.left, t.comparators[0]
                 for x, y in ((a, b), (b, a)):
                     if norm(x) == param and isinstance(y, ast.Attribute) and norm(y.value) == "BlockType":
-                        m = y.attr
-            if m is not None:
-                ret = next((s for s in st.body if isinstance(s, ast.Return)), None)
-                if ret is not None and ret.value is not None:
-                    mapping.setdefault(m, (ret.value, st))
-            for s in st.orelse:
-                walk_if(s)
-
-    for st in f.node.body:
-        walk_if(st)
-        # dict literal idiom
-        for n in ast.walk(st):
-            if isinstance(n, ast.Dict):
-                for k, v in zip(n.keys, n.values):
-                    if isinstance(k, ast.Attribute) and norm(k.value) == "BlockType":
-                        mapping.setdefault(k.attr, (v, st))
-        if isinstance(st, ast.Match):
-            for case in st.cases:
-                p = case.pattern
-                if isinstance(p, ast.MatchValue) and isinstance(p.value, ast.Attribute) and norm(p.value.value) == "BlockType":
-                    ret = next((s for s in case.body if isinstance(s, ast.Return)), None)
-                    if ret is not None:
-                        mapping.setdefault(p.value.attr, (ret.value, st))
+                        mapping.setdefault(y.attr, (leaf, pe.node))
     n = 0
     for m in members:
         n += 1
